@@ -367,11 +367,18 @@ func NewGraph(metaData *MetaData, build *BuildDirective, varPool *VarPool) (*Gra
 	// Types are looked up by identity, not by spelling: an alias and the type it stands for are the
 	// same type and share one key (the spelling seen first).
 	var canonical typeutil.Map
+	spellings := make(map[string]int)
 	typeKey := func(t types.Type) string {
 		if key, ok := canonical.At(t).(string); ok {
 			return key
 		}
 		key := t.String()
+		// different types can print alike (struct{ x int } of two packages, a function-local type):
+		// they must not share a key
+		spellings[key]++
+		if n := spellings[key]; n > 1 {
+			key = fmt.Sprintf("%s (%d)", key, n)
+		}
 		canonical.Set(t, key)
 		return key
 	}
